@@ -364,6 +364,12 @@ func (l *Lexer) backupChars(n int) {
 	l.column -= n
 }
 
+// Rewinds the cursor back n chars to the given byte offset.
+func (l *Lexer) backupCharsTo(offset int, n int) {
+	l.cursor = offset
+	l.column -= n
+}
+
 // Swallows characters until the given char is seen.
 func (l *Lexer) swallowUntil(char rune) bool {
 	for {
@@ -1267,6 +1273,7 @@ func (l *Lexer) quotedIdentifier(invalidMode mode, tokenType token.Type, untermi
 			continue
 		}
 
+		escapeStart := l.cursor - 1 // the byte offset of the backslash
 		char, ok = l.advanceChar()
 		if !ok {
 			return l.lexError(unterminatedError)
@@ -1333,13 +1340,12 @@ func (l *Lexer) quotedIdentifier(invalidMode mode, tokenType token.Type, untermi
 				return l.lexError(invalidHexEscapeError)
 			}
 			lexemeBuff.WriteByte(byte(value))
-		case '\n':
-			l.incrementLine()
-			fallthrough
 		default:
 			l.pushMode(invalidMode)
 			l.pushMode(invalidEscapeMode)
-			l.backupChars(2)
+			// rewind to the backslash, the escaped character may take up
+			// more than one byte
+			l.backupCharsTo(escapeStart, 2)
 			return l.tokenWithValue(tokenType, lexemeBuff.String())
 		}
 	}
@@ -1534,6 +1540,9 @@ func (l *Lexer) scanInvalidEscape() *token.Token {
 
 	char, _ = l.advanceChar()
 	lexemeBuff.WriteRune(char)
+	if char == '\n' {
+		l.incrementLine()
+	}
 
 	return l.lexError(fmt.Sprintf("invalid escape sequence `%s` in string literal", lexemeBuff.String()))
 }
@@ -1574,6 +1583,7 @@ func (l *Lexer) scanStringLiteralContent() *token.Token {
 			continue
 		}
 
+		escapeStart := l.cursor - 1 // the byte offset of the backslash
 		char, ok = l.advanceChar()
 		if !ok {
 			return l.lexError(unterminatedStringError)
@@ -1637,12 +1647,11 @@ func (l *Lexer) scanStringLiteralContent() *token.Token {
 				return l.lexError(invalidHexEscapeError)
 			}
 			lexemeBuff.WriteByte(byte(value))
-		case '\n':
-			l.incrementLine()
-			fallthrough
 		default:
 			l.pushMode(invalidEscapeMode)
-			l.backupChars(2)
+			// rewind to the backslash, the escaped character may take up
+			// more than one byte
+			l.backupCharsTo(escapeStart, 2)
 			return l.tokenWithValue(token.STRING_CONTENT, lexemeBuff.String())
 		}
 	}
